@@ -44,20 +44,25 @@ TRUSTED = ["float32 arithmetic of upgma/nj modelled as exact rational arithmetic
            "no rounding occurs; the float stream is judged by the oracle with a tolerance)",
            "Python float repr/float() round trip of float32 values (exercised by the oracle, modelled as an abstract codec)",
            "np.allclose modelled by its documented formula"]
-ASSUMPTIONS = ["'neighbour joining recovers every additive metric' is not a Lean theorem; it is checked by the oracle on "
-               "random trees -> additive matrices (exact dyadic stream and float stream)"]
-LEVEL_TEXT = ("Lean theorems for all inputs on the executable model (17, no sorry): UPGMA and NJ leaves = every index "
-              "exactly once (loop invariant + termination, NJ incl. the three-way join); NJ totality: every accepted matrix "
-              "(zero distances and ties included) yields a tree, never None; UPGMA merge height = half the "
-              "average linkage of the merged clusters (invariant: matrix entry of two live clusters = mean of the "
-              "original distances over their leaf pairs), every leaf under a node at distance height(node), no negative "
-              "branch; distance_to/get_distance = explicit downward path sums through the LCA, LCA = longest common "
-              "prefix; as_binary(Tree) is binary, keeps the leaf order and the whole leaf-to-leaf distance matrix; copy; "
-              "Newick round trip for any arity, labels None or LabelsOk, with and without distances, under arbitrary "
-              "injected whitespace, for any branch-length codec with parse(show d) = d; three defect witnesses. The "
-              "model is tied to the Cython code by the correspondence stream. Oracle-only (partial): NJ recovers every "
-              "additive metric; the compositional distance matrix T.rows used by the as_binary theorem is not linked to "
-              "distance_to inside Lean (both are tied to the code by the correspondence and the oracle).")
+ASSUMPTIONS = ["'neighbour joining recovers every additive metric' is a Lean theorem only modulo the cherry lemma "
+               "(Q-minimal pair is a cherry) for more than four live taxa; unconditional for 4x4; for n >= 5 it is checked "
+               "by the oracle on random trees -> additive matrices (exact dyadic stream and float stream)"]
+LEVEL_TEXT = ("Lean theorems for all inputs on the executable model (26, no sorry): UPGMA and NJ leaves = every index "
+              "exactly once (loop invariant + termination, NJ incl. the three-way join); NJ totality (every accepted "
+              "matrix, zero distances and ties included, yields a tree); UPGMA merge height = half the average linkage "
+              "of the merged clusters, every leaf under a node at distance height(node), no negative branch; "
+              "distance_to/get_distance = explicit downward path sums through the LCA, LCA = longest common prefix; "
+              "the leaf-to-leaf matrix T.rows IS the matrix of distance_to queries (C19_rows_eq_distance), as_binary(Tree) "
+              "is binary, keeps the leaf order and every leaf-to-leaf distance_to answer; copy; Newick round trip for any "
+              "arity, labels None or LabelsOk, with/without distances, under arbitrary injected whitespace; three defect "
+              "witnesses. NJ on additive matrices (four-point condition): branch lengths of a joined cherry are the true "
+              "edge lengths, the reduced matrix stays symmetric/zero-diagonal/four-point and is the metric of the tree "
+              "with the cherry contracted, the final three-way join is exact, and by induction over the loop all "
+              "distance_to answers equal D PROVIDED the Q-minimal pair is a cherry in every state (C19_nj_additive, "
+              "hypothesis CherryLemma n); that cherry lemma is proved for four live taxa, so the clause is an "
+              "unconditional theorem for 4x4 matrices (C19_nj_additive_4). PARTIAL: the cherry lemma for more than four "
+              "live taxa (Saitou-Nei / Studier-Keppler) is not proved; for n >= 5 'NJ recovers every additive metric' "
+              "rests on the oracle (exact dyadic stream with equality, float stream with tolerance).")
 LEVEL_NOTE = "float32 rounding, Python float formatting/parsing and numpy validation helpers are modelled, not verified"
 TECHNIQUE = "Lean 4 proof (loop invariants over the merge loop, structural induction over rose trees) + correspondence"
 
